@@ -28,3 +28,32 @@ package alpine
 
 //@ func (*Version).Compare
 //@   comparator v ~ other                                 [C01]
+
+// ---- constructors: value xor error (C06); the fact is structural (untagged) because callers rely on it
+
+//@ func (*Ecosystem).NewVersion
+//@   ensures xor: (result0 != nil) == (result1 == nil)
+
+//@ func (*Ecosystem).NewVersionRange
+//@   ensures xor: (result0 != nil) == (result1 == nil)
+
+// ---- ranges (C02: a comparator holds exactly when Compare says so; C20: membership depends only on order position)
+
+//@ spec wfRange(vr *VersionRange) bool = forall i int :: 0 <= i && i < len(vr.constraints) ==> vr.constraints[i] != nil
+
+//@ func satisfiesConstraint
+//@   ensures bad-bound: true && !(ecosystem.NewVersion(c.version).1 == nil) ==> !result   [C02 C20]
+//@   ensures op=: ecosystem.NewVersion(c.version).1 == nil && c.operator == "=" ==> result == (version.Compare(ecosystem.NewVersion(c.version).0) == 0)   [C02 C20]
+//@   ensures op!=: ecosystem.NewVersion(c.version).1 == nil && c.operator == "!=" ==> result == (version.Compare(ecosystem.NewVersion(c.version).0) != 0)   [C02 C20]
+//@   ensures op<: ecosystem.NewVersion(c.version).1 == nil && c.operator == "<" ==> result == (version.Compare(ecosystem.NewVersion(c.version).0) < 0)   [C02 C20]
+//@   ensures op<=: ecosystem.NewVersion(c.version).1 == nil && c.operator == "<=" ==> result == (version.Compare(ecosystem.NewVersion(c.version).0) <= 0)   [C02 C20]
+//@   ensures op>: ecosystem.NewVersion(c.version).1 == nil && c.operator == ">" ==> result == (version.Compare(ecosystem.NewVersion(c.version).0) > 0)   [C02 C20]
+//@   ensures op>=: ecosystem.NewVersion(c.version).1 == nil && c.operator == ">=" ==> result == (version.Compare(ecosystem.NewVersion(c.version).0) >= 0)   [C02 C20]
+//@   ensures other: c.operator != "=" && c.operator != "!=" && c.operator != "<" && c.operator != "<=" && c.operator != ">" && c.operator != ">=" ==> !result   [C02 C20]
+
+//@ func (*VersionRange).Contains
+//@   requires wfRange(vr)
+//@   ensures and: result == (forall i int :: 0 <= i && i < len(vr.constraints) ==> satisfiesConstraint(version, vr.constraints[i], theEcosystem()))   [C02 C20]
+
+//@ lemma c20-equal [C20]: forall c *constraint, v1, v2 *Version, ecosystem *Ecosystem :: trigger(satisfiesConstraint(v1, c, ecosystem), satisfiesConstraint(v2, c, ecosystem)) && c != nil && ecosystem != nil && v1 != nil && v2 != nil && (c.operator == "=" || c.operator == "!=" || c.operator == "<" || c.operator == "<=" || c.operator == ">" || c.operator == ">=") && v1.Compare(v2) == 0 ==> satisfiesConstraint(v1, c, ecosystem) == satisfiesConstraint(v2, c, ecosystem)
+//@ lemma c20-convex [C20]: forall c *constraint, a, b, d *Version, ecosystem *Ecosystem :: trigger(satisfiesConstraint(a, c, ecosystem), satisfiesConstraint(d, c, ecosystem), a.Compare(b), b.Compare(d)) && c != nil && ecosystem != nil && a != nil && b != nil && d != nil && (c.operator == "=" || c.operator == "!=" || c.operator == "<" || c.operator == "<=" || c.operator == ">" || c.operator == ">=") && c.operator != "!=" && a.Compare(b) <= 0 && b.Compare(d) <= 0 && satisfiesConstraint(a, c, ecosystem) && satisfiesConstraint(d, c, ecosystem) ==> satisfiesConstraint(b, c, ecosystem)
